@@ -245,7 +245,7 @@ def case_projectors(log, nf, qed, deep=False):
             v = prove_small([img[lab][i] - want[i] for i in range(14)],
                             "f @ ad_projector(%r, nf=%d, %s) == sum c_A r_B over %s (source -> target, all other basis distributions annihilated)"
                             % (lab, nf, _tag(qed), ["%s.%s" % e for e in els] or "no element"))
-            _decide(log, v, key="ad_projector[%s]:%r" % (_tag(qed), lab), replay=(MOD, "replay_sector", dict(kw, lab=lab)), sampler=_sampler_c(labs))
+            _decide(log, v, key="ad_projector[%s]:sector-map" % _tag(qed), replay=(MOD, "replay_sector", dict(kw, lab=lab)), sampler=_sampler_c(labs))
         # diagonal maps: idempotent, mutually orthogonal, complete on the active parton space
         diag = [l for l in sectors if M.is_diagonal_sector(l)]
         if all(l in proj for l in diag):
@@ -334,6 +334,7 @@ def _setup(point, nf, qed):
 def replay_available(point, qed, pairs):
     import numpy as np
     import warnings
+    M.light_eko()
     import eko.basis_rotation as br
 
     bad = []
@@ -354,6 +355,7 @@ def replay_available(point, qed, pairs):
 
 def replay_sector(point, nf, qed, lab):
     import numpy as np
+    M.light_eko()
     import eko.basis_rotation as br
 
     labs, Rb, cv, f = _setup(point, nf, qed)
@@ -370,6 +372,7 @@ def replay_sector(point, nf, qed, lab):
 
 def replay_algebra(point, nf, qed, a=None, b=None, complete=False, law=False):
     import numpy as np
+    M.light_eko()
     import eko.basis_rotation as br
 
     labs, Rb, cv, f = _setup(point, nf, qed)
@@ -391,6 +394,7 @@ def replay_algebra(point, nf, qed, a=None, b=None, complete=False, law=False):
 
 def replay_collection(point, qed, nfs):
     import numpy as np
+    M.light_eko()
     import eko.basis_rotation as br
 
     sectors = M.sector_labels(qed)
@@ -401,6 +405,8 @@ def replay_collection(point, qed, nfs):
             return {"detail": "eko.basis_rotation.ad_projectors(nf=%d, qed=%s) raises %s: %s" % (nf, qed, type(e).__name__, e)}
         if len(allp) != len(sectors):
             return {"detail": "ad_projectors(nf=%d, qed=%s) returns %d maps, the %s basis has %d sectors" % (nf, qed, len(allp), _tag(qed), len(sectors))}
+        if not np.all(np.isfinite(allp)):
+            return {"detail": "ad_projectors(nf=%d, qed=%s) contains nan/inf" % (nf, qed)}
         labs, Rb, cv, f = _setup(point, nf, qed)
         for k, lab in enumerate(sectors):
             try:
@@ -414,6 +420,7 @@ def replay_collection(point, qed, nfs):
 
 def replay_tables(point, qed, row=None, inv=False, orth=False, fact=None):
     import numpy as np
+    M.light_eko()
     import eko.basis_rotation as br
 
     table = np.asarray(br.rotate_flavor_to_unified_evolution if qed else br.rotate_flavor_to_evolution, dtype=float)
